@@ -24,7 +24,7 @@ ASSUMPTIONS = [
     "not demanded: OpenAPI style/explode variants, parameter order, extra transport headers",
     "argument names are derived with the generator's own sanitiser; an operation whose package does not import is C01's subject and only counted",
 ]
-BOUND = {"quick": "~340 operations inline and through component refs, every subset of <=3 optional arguments, 2 value sets; all calls of a pack on one client with a transport default header", "thorough": "full location x required x kind x name product (768 single-parameter shapes) + the rest"}
+BOUND = {"quick": "~340 operations inline and through component refs, every subset of <=3 optional arguments, 2 value sets; all calls of a pack on one client with a transport default header", "thorough": "full location x required x kind x name product (768 single-parameter shapes); every unordered pair of (location x required x kind) shapes over 6 kinds; every body kind x required x every parameter class; 3 non-path parameters in every required pattern; every per-argument choice of the two values (2^n, n<=4) for every supplied subset"}
 CHUNK = 2
 PACK = 8
 P = ops.param
@@ -80,6 +80,21 @@ def op_cases(tier):
         for at in ("path", "both"):
             out.append(ops.op("get", "/a/{id}" if loc == "path" else "/a", [P("id", loc, loc == "path", "string", at)]))
     out.append(ops.op("get", "/q3", [P("a", "query", False, "string"), P("b", "header", False, "integer"), P("c", "cookie", False, "boolean")]))
+    if tier != "quick":
+        # every unordered pair of (location x required x kind) parameter shapes on one operation
+        shapes = [(loc, req, k) for (loc, req) in classes for k in ("string", "integer", "boolean", "arr-string", "str-enum", "date")
+                  if not (k == "arr-string" and loc != "query")]
+        for (la, ra, ka), (lb, rb, kb) in itertools.combinations_with_replacement(shapes, 2):
+            path = "/a" + ("/{p1}" if la == "path" else "") + ("/{p2}" if lb == "path" else "")
+            out.append(ops.op("get", path, [P("p1", la, ra, ka), P("p2", lb, rb, kb)]))
+        # every body kind next to every parameter class
+        for bk in ops.BODY_KINDS:
+            for req in (False, True):
+                for (loc, preq) in classes:
+                    out.append(ops.op("post", "/b/{p}" if loc == "path" else "/b", [P("p", loc, preq, "string")], {"kind": bk, "required": req}, {"204": "none"}))
+        # three parameters, one per non-path location, every required pattern, next to a path parameter
+        for ra, rb, rc in itertools.product((False, True), repeat=3):
+            out.append(ops.op("get", "/t/{id}", [P("id", "path", True, "integer"), P("a", "query", ra, "arr-string"), P("b", "header", rb, "string"), P("c", "cookie", rc, "integer")]))
     seen = set()
     uniq = []
     for c in out:
@@ -92,7 +107,7 @@ def op_cases(tier):
 
 def cases(tier, seed):
     oc = op_cases(tier)
-    return [{"ops": oc[i:i + PACK], "refs": r} for r in (False, True) for i in range(0, len(oc), PACK)]
+    return [{"ops": oc[i:i + PACK], "refs": r, "fullprod": tier != "quick"} for r in (False, True) for i in range(0, len(oc), PACK)]
 
 
 # ----------------------------------------------------------------------------------------------
@@ -138,6 +153,9 @@ def implicit_path_vars(case):
     return [v for v in re.findall(r"\{([^}]+)\}", case["path"]) if v not in declared]
 
 
+FULL_VALUE_PRODUCT = False   # thorough: every per-argument choice of the two values (2^n), not only "all plain" / "all escaping"
+
+
 def assignments(case):
     """every subset of optional arguments x 2 value sets -> [(label, {spec param name: value}, body variant index or None)]"""
     params = case["params"]
@@ -151,16 +169,24 @@ def assignments(case):
     for k in range(len(opt) + 1):
         for subset in itertools.combinations(range(len(opt)), k):
             chosen = {opt[i]["name"] + "@" + opt[i]["in"] for i in subset}
-            for vi in (0, 1):
+            present = [p for p in params if p["required"] or (p["name"] + "@" + p["in"]) in chosen]
+            if FULL_VALUE_PRODUCT and 2 <= len(present) <= 4:
+                vsets = [(0,) * len(present), (1,) * len(present)] + [t for t in itertools.product((0, 1), repeat=len(present)) if len(set(t)) > 1]
+            else:
+                vsets = [(0,) * len(present), (1,) * len(present)]
+            for vt in vsets:
+                vi = vt[0] if vt else 0
+                uniform = len(set(vt)) <= 1
                 for bo in body_opts:
                     vals = {}
-                    for p in params:
-                        key = p["name"] + "@" + p["in"]
-                        if p["required"] or key in chosen:
-                            vals[key] = param_values(p)[vi]
+                    for p, pv in zip(present, vt):
+                        vals[p["name"] + "@" + p["in"]] = param_values(p)[pv]
+                    if not vt:
+                        vi = 0
                     for v in implicit_path_vars(case):
                         vals[v + "@path"] = ["abc", "x y"][vi]
-                    out.append((f"supplied={sorted(chosen)}|v{vi}|body={bo}", vals, bo))
+                    vlab = f"v{vi}" if uniform else "v" + "".join(map(str, vt))
+                    out.append((f"supplied={sorted(chosen)}|{vlab}|body={bo}", vals, bo))
     # dedupe identical assignments (value sets coincide when nothing optional)
     seen = set()
     uniq = []
@@ -331,6 +357,8 @@ def check_call(case, idx, lab, vals, bo, rec, add):
 
 
 def run_case(case):
+    global FULL_VALUE_PRODUCT
+    FULL_VALUE_PRODUCT = bool(case.get("fullprod"))
     cs = case["ops"]
     stats = {}
     refs = bool(case.get("refs"))
